@@ -336,6 +336,106 @@ def data_bounded_loops(prog, modules):
     return out
 
 
+def regex_trouble(pattern):
+    """-> description of a nested unbounded repetition whose body is, apart from parts that may match nothing, itself one unbounded
+    repetition - `(x+)*`, `(?:x+\\s*)*`: a text of n x-characters followed by a character that fits nowhere is tried in 2^n splits by the
+    backtracking matcher; None when the pattern has no such construct"""
+    import re._parser as sp
+    import re._constants as sc
+    try:
+        tree = sp.parse(pattern)
+    except Exception as e:          # not a valid pattern: the call raises at run time, nothing is matched
+        return None
+    REPEATS = (sc.MAX_REPEAT, sc.MIN_REPEAT) + ((sc.POSSESSIVE_REPEAT,) if hasattr(sc, 'POSSESSIVE_REPEAT') else ())
+
+    def nullable(seq):
+        return all(item_nullable(op, av) for op, av in seq)
+
+    def item_nullable(op, av):
+        if op in REPEATS:
+            return av[0] == 0 or nullable(av[2])
+        if op is sc.SUBPATTERN:
+            return nullable(av[3])
+        if op is sc.BRANCH:
+            return any(nullable(b) for b in av[1])
+        return op in (sc.AT, sc.ASSERT, sc.ASSERT_NOT, sc.GROUPREF_EXISTS)
+
+    def core(seq):
+        """the items of a sequence that must consume something, sub-patterns opened up"""
+        out = []
+        for op, av in seq:
+            if op is sc.SUBPATTERN:
+                out += core(av[3]) if not nullable(av[3]) else []
+            elif not item_nullable(op, av):
+                out.append((op, av))
+        return out
+
+    def walk(seq):
+        for op, av in seq:
+            if op in REPEATS:
+                lo, hi, body = av
+                if hi == sc.MAXREPEAT and op is not getattr(sc, 'POSSESSIVE_REPEAT', None):
+                    c = core(body)
+                    if len(c) == 1 and c[0][0] in (sc.MAX_REPEAT, sc.MIN_REPEAT) and c[0][1][1] == sc.MAXREPEAT:
+                        return 'an unbounded repetition whose body is (apart from optional parts) one unbounded repetition'
+                r = walk(body)
+                if r:
+                    return r
+            elif op is sc.SUBPATTERN:
+                r = walk(av[3])
+                if r:
+                    return r
+            elif op is sc.BRANCH:
+                for b in av[1]:
+                    r = walk(b)
+                    if r:
+                        return r
+            elif op in (sc.ASSERT, sc.ASSERT_NOT):
+                r = walk(av[1])
+                if r:
+                    return r
+        return None
+    return walk(tree)
+
+
+def check_regexes(run, prog):
+    run.rule('D2r', 'regular expressions in the parsers have no unbounded repetition of an unbounded repetition (exponential backtracking on a short input)', 0)
+    # the rule must see its positive example on every run
+    if regex_trouble(r'\s*(?:[A-Za-z0-9+/]+\s*)*=') is None or regex_trouble(r'\s([^:]+):(\(.+\)|\S+)') is not None or regex_trouble(r'(?:a+b)*') is not None:
+        raise AnalysisError('the regular-expression rule does not classify its own examples')
+    consts = {}
+    n = 0
+    for f in prog.all_functions():
+        m = prog.modules.get(f.module)
+        for c in ast.walk(f.node):
+            if isinstance(c, ast.Call) and isinstance(c.func, ast.Attribute) and isinstance(c.func.value, ast.Name) and c.func.value.id == 're' and \
+                    c.func.attr in ('compile', 'match', 'fullmatch', 'search', 'sub', 'subn', 'split', 'findall', 'finditer') and c.args:
+                a0 = c.args[0]
+                pat = a0.value if isinstance(a0, ast.Constant) and isinstance(a0.value, (str, bytes)) else None
+                if pat is None and isinstance(a0, ast.Name) and m is not None and isinstance(getattr(m, 'consts', {}).get(a0.id), ast.Constant):
+                    pat = m.consts[a0.id].value
+                if pat is None:
+                    run.info(f'{f.qual}: regular expression {ast.unparse(a0)[:40]} is not a literal - not examined')
+                    continue
+                n += 1
+                why = regex_trouble(pat.decode('latin-1') if isinstance(pat, bytes) else pat)
+                run.check(why is None, 'D2r', f'{f.qual}[regular expression]' if why else f'regex {pat!r:.40} in {f.qual}',
+                          f're.{c.func.attr}({pat!r:.60}): ' + (why + ' - a short text that almost matches is tried in exponentially many ways' if why else 'no nested unbounded repetition'),
+                          prog.where(c, f.module))
+    # module-level compiled patterns
+    for mname, m in prog.modules.items():
+        for nm, e in getattr(m, 'consts', {}).items():
+            if isinstance(e, ast.Call) and isinstance(e.func, ast.Attribute) and isinstance(e.func.value, ast.Name) and e.func.value.id == 're' and e.func.attr == 'compile' \
+                    and e.args and isinstance(e.args[0], ast.Constant) and isinstance(e.args[0].value, (str, bytes)):
+                pat = e.args[0].value
+                n += 1
+                why = regex_trouble(pat.decode('latin-1') if isinstance(pat, bytes) else pat)
+                run.check(why is None, 'D2r', f'{mname}.{nm}[regular expression]' if why else f'regex {pat!r:.40} ({mname}.{nm})',
+                          f're.compile({pat!r:.60}): ' + (why + ' - a short text that almost matches is tried in exponentially many ways' if why else 'no nested unbounded repetition'),
+                          f'pytoniq_core/{mname.replace(".", "/")}.py')
+    run.ok('D2r', 'regular expressions scanned', f'{n} literal pattern(s)')
+
+
 def check(run):
     sys.setrecursionlimit(50000)
     prog = Program()
@@ -651,6 +751,9 @@ def check(run):
                       f'key length 2, root label {lname}, then a chain of d forks over one shared child (d+2 cells), d={list(ddepths)[:len(counts)]}: {outcome}, most-executed call/loop runs {counts} times' +
                       ('' if ok else ' - the constraint n <= m of HmLabel is not enforced, the remaining key length goes negative and the descent no longer stops at the key length: work doubles per cell'), wd,
                       witness=dict(entry=entry, label=list(lab), depths=list(ddepths)))
+
+    # ---- D2r regular expressions applied to input: no repetition of a repetition that can be split in exponentially many ways
+    check_regexes(run, prog)
 
     # ---- D2s the data-bounded loops are known
     loops = data_bounded_loops(prog, ('boc.deserialize', 'tl.generator'))
